@@ -45,17 +45,18 @@ ALPHABET = [
     ("window:diff", 1), ("window:same", 0), ("window:invalid", 0), ("window:alias", 0),
     ("lag:diff", 1), ("lag:same", 0), ("lag:out", 1),
     ("ar_order:diff", 1), ("ar_order:same", 0), ("ar_order:neg", 0), ("ar_order:big", 1), ("ar_order:none", 0),
+    ("ar_order:zero", 0), ("ma_order:zero", 0), ("data:const", 0),
     ("ma_order:diff", 1), ("ma_order:same", 0), ("ma_order:neg", 0), ("ma_order:none", 0),
     ("npscalar:ar_order", 0), ("npscalar:ma_order", 0), ("npscalar:lag", 0), ("npscalar:sampling", 0),
     ("npscalar:scale", 0), ("npscalar:NFFT", 0),
     ("inject:0:before", 1), ("inject:0:after", 0), ("inject:1:before", 1), ("inject:1:after", 0),
     ("inject:2:before", 0), ("inject:2:after", 0), ("inject:3:before", 0),
     ("inject:0:before:LinAlgError", 0), ("inject:0:before:FloatingPointError", 0),
-    ("inject:0:before:ZeroDivisionError", 0), ("inject:1:after:LinAlgError", 0),
+    ("inject:0:before:ZeroDivisionError", 0), ("inject:1:after:LinAlgError", 0), ("inject:0:before:ValueError", 0),
 ]
 ALPHA_NAMES = [a for a, _ in ALPHABET]
 CORE_NAMES = [a for a, c in ALPHABET if c]
-FAULTY = {"sides:invalid", "NFFT:invalid", "NFFT:lt", "scale:invalid", "detrend:invalid", "window:invalid",
+FAULTY = {"ar_order:zero", "ma_order:zero", "data:const", "sides:invalid", "NFFT:invalid", "NFFT:lt", "scale:invalid", "detrend:invalid", "window:invalid",
           "lag:out", "ar_order:neg", "ar_order:big", "ma_order:neg", "ma_order:none", "ar_order:none"}
 MODES = ("fault_free", "natural", "injected", "mixed")
 
@@ -257,10 +258,7 @@ class Run(object):
         # drops its `detrend` argument, which is not a staleness matter).
         self.assigned = {}
         if self.p is not None:
-            try:
-                self.assigned["data"] = np.array(self.p.data)
-            except Exception:
-                pass
+            self.assigned["data"] = np.array(dec_data(cfg["data"]))
 
     def close(self):
         self.plane.remove()
@@ -470,8 +468,12 @@ class Run(object):
             # NFFT) is never mistaken for drift
             a = op["attr"]
             try:
-                cur = getattr(p, a)
-                self.assigned[a] = np.array(cur) if a == "data" else cur
+                if a == "data":
+                    # for the data the expectation is what the caller assigned: same shape, same values and the
+                    # same real/complex kind (container and float width may be normalised, the numbers may not)
+                    self.assigned[a] = np.array(dec_data(op["value"]))
+                else:
+                    self.assigned[a] = getattr(p, a)
             except Exception:
                 self.assigned.pop(a, None)
         if viol is None:
@@ -634,7 +636,7 @@ def concretize(aname, rng, run):
         if len(parts) > 3:
             op["exc"] = parts[3]
         elif rng.random() < 0.3 and run.cfg.get("mode") in ("injected", "mixed") and len(run.ops) > 0:
-            op["exc"] = rng.choice(["LinAlgError", "FloatingPointError", "ZeroDivisionError", "OverflowError"])
+            op["exc"] = rng.choice(["LinAlgError", "FloatingPointError", "ZeroDivisionError", "OverflowError", "ValueError"])
         return op
     vc = parts[1]
     if head == "npscalar":
@@ -672,6 +674,9 @@ def concretize(aname, rng, run):
             arr = gen_signal(rng, N + rng.choice([0, 0, 1]), not cplx)
         elif vc == "list":
             return {"op": "set", "attr": "data", "value": enc_data(gen_signal(rng, N, cplx), "list")}
+        elif vc == "const":
+            c = rng.choice([1.0, 0.0, -2.5])
+            arr = np.full(N, c + 0j if cplx else c)     # degenerate signal: most estimators cannot fit it
         elif vc == "f32":
             return {"op": "set", "attr": "data", "value": enc_data(gen_signal(rng, N, cplx), "f32")}
         elif vc == "int":
@@ -751,6 +756,8 @@ def concretize(aname, rng, run):
         return {"op": "set", "attr": "lag", "value": rng.choice(cands)}
     if head in ("ar_order", "ma_order"):
         cur = getattr(p, head)
+        if vc == "zero":
+            return {"op": "set", "attr": head, "value": 0}
         if vc == "neg":
             return {"op": "set", "attr": head, "value": -rng.randrange(1, 4)}
         if vc == "none":
